@@ -20,6 +20,17 @@ def conv(x):
     return x
 
 
+def mutable(x):
+    """every bytes value as a bytearray (what the library's own decoders return and callers pass on)"""
+    if isinstance(x, bytes):
+        return bytearray(x)
+    if isinstance(x, dict):
+        return {k: mutable(v) for k, v in x.items()}
+    if isinstance(x, list):
+        return [mutable(v) for v in x]
+    return x
+
+
 def main():
     req = json.load(sys.stdin)
     from pyscsi.pyscsi.scsi_enum_command import spc
@@ -37,8 +48,21 @@ def main():
         cls, op = C[c["cls"]]
         try:
             import copy
-            cmd = cls(op, *conv(copy.deepcopy(c["pos"])), **conv(copy.deepcopy(c["kw"])))
+            pos, kw = mutable(conv(copy.deepcopy(c["pos"]))), mutable(conv(copy.deepcopy(c["kw"])))
+            before = repr((pos, kw))
+            cmd = cls(op, *pos, **kw)
             why = c["check"](bytes(cmd.cdb), bytes(cmd.dataout))
+            if why is None:
+                # the same argument objects handed to the constructor a second (and third) time: equal inputs, equal bytes — and the
+                # caller's dictionaries, lists and byte buffers are still what they were
+                for rep in (2, 3):
+                    again = cls(op, *pos, **kw)
+                    if bytes(again.cdb) != bytes(cmd.cdb) or bytes(again.dataout) != bytes(cmd.dataout):
+                        why = "construction no. %d from the same arguments gives a different command: data-out %s, the first time %s" % (
+                            rep, bytes(again.dataout).hex()[:160], bytes(cmd.dataout).hex()[:160])
+                        break
+                if why is None and repr((pos, kw)) != before:
+                    why = "the caller's arguments were changed by the constructor: %s, before %s" % (repr((pos, kw))[:200], before[:200])
             out.append(dict(i=i, kind=c["kind"], why=why, cdb=list(cmd.cdb), dataout=list(cmd.dataout)))
         except Exception as e:  # noqa
             out.append(dict(i=i, kind=c["kind"], why="cannot be constructed: %s: %s" % (type(e).__name__, str(e)[:100]), exn=type(e).__name__))
